@@ -54,3 +54,25 @@ Qed.
 Lemma hstep_aborted_mono h v o h' v' es :
   hstep h v o = (h', v', es) -> aborted h = true -> h' = h /\ v' = v /\ es = [].
 Proof. intros Hs Ha. unfold hstep in Hs. rewrite Ha in Hs. inversion Hs; auto. Qed.
+
+(** Where a [CSwapped old] critical section comes from. *)
+Lemma hstep_old h v o h' v' es old st a b it :
+  hstep h v o = (h', v', es) -> crit h' = CSwapped old st a b it ->
+  (exists st' a' b' it', crit h = CSwapped old st' a' b' it') \/
+  (v = WIn /\ o = OSwap /\ crit h = CLoaded /\ old = ptr h).
+Proof.
+  intros Hs Hc.
+  destruct (hstep_crit _ _ _ _ _ _ Hs) as [Heq|[Hw|(_ & _ & _ & Hl & _)]].
+  - rewrite Heq in Hc. left. eauto.
+  - subst v. unfold hstep in Hs. destruct (aborted h); [inversion Hs; subst; left; eauto|].
+    destruct o; try (inversion Hs; subst; left; eauto; fail).
+    + destruct (crit h) eqn:E; inversion Hs; subst; try (rewrite E in Hc; left; eauto; fail); simpl in Hc; discriminate.
+    + destruct (crit h) eqn:E; inversion Hs; subst; try (rewrite E in Hc; left; eauto; fail).
+      simpl in Hc. inversion Hc; subst. right. auto.
+    + destruct (crit h) as [| | |old0 st0 a0 b0 it0|] eqn:E; try (inversion Hs; subst; rewrite E in Hc; discriminate).
+      destruct (barrier_step h old0 st0 a0 b0 it0) as [h2 e2] eqn:Hb. inversion Hs; subst.
+      apply barrier_step_shape in Hb. destruct Hb as (_ & _ & _ & _ & _ & [Hx|(st' & t0 & t1 & it' & Hx)]); rewrite Hx in Hc; [discriminate|].
+      inversion Hc; subst. left. eauto.
+    + destruct (crit h) eqn:E; inversion Hs; subst; try (rewrite E in Hc; left; eauto; fail); simpl in Hc; discriminate.
+  - rewrite Hl in Hc. discriminate.
+Qed.
